@@ -265,7 +265,7 @@ class CallMixin:
             self.contract, self.defs = saved
         # lemma uses anchored after this call (the callee's result is visible as `result`)
         anchor = 'after_call:' + fn.qualname.split('.')[-1]
-        if self.contract.get('use_lemmas', {}).get(anchor):
+        if self.contract.get('use_lemmas', {}).get(anchor) or self.contract.get('asserts', {}).get(anchor):
             had = p.env.get('result'); p.env['result'] = res if res is not None else VNone()
             try: self.apply_lemmas(anchor, p)
             finally:
